@@ -22,6 +22,7 @@ LEVEL_TEXT = (
     "(masks identical, values within 1e-9 relative). No reference semantics are involved. Sampled, not exhaustive."
     ' A replication relation (the same cells laid end to end up to 6000 times give the same results as many times over) and nearly equal large values (250001..250003) in double precision are included.'
 )
+LEVEL_TEXT += ' Added later: replications beyond a million cells (generated, and enumerated for the many-input commands).'
 LEVEL_NOTE = "Whole-array statistics are order-independent on the dyadic lattice inputs used; a 1e-9 relative tolerance absorbs summation-order rounding."
 RULE = (
     "Hypothesis draws (command, parameters, 1-5 input vectors of N<=24 cells with masks, int64/float64) and a "
